@@ -62,6 +62,12 @@ int set_indent_size(int indent_size) {
     return 0;
 }
 
+/*
+ * process_deeper() recurses once per constructed TLV;
+ * bound the recursion so that hostile input cannot exhaust the stack.
+ */
+#define UNBER_MAX_NESTING 2048
+
 typedef enum pd_code {
     PD_FAILED = -1,
     PD_FINISHED = 0,
@@ -261,6 +267,14 @@ process_deeper(const char *fname, input_stream_t *ibs, output_stream_t *os,
             osprintf(os, ">\n"); /* Close the opening tag */
             if(tlv_len != -1 && limit != -1) {
                 assert(limit >= tlv_len);
+            }
+            if(level >= UNBER_MAX_NESTING) {
+                osprintfError(os,
+                              "%s: TLVs nested deeper than %d levels at %lld. "
+                              "Broken or maliciously constructed file\n",
+                              fname, UNBER_MAX_NESTING,
+                              (long long)ibs->bytesRead(ibs));
+                return PD_FAILED;
             }
             pdc = process_deeper(fname, ibs, os, level + 1,
                                  tlv_len == -1 ? limit : tlv_len, &dec,
